@@ -46,7 +46,7 @@ Definition step_of_model (cfg : cfgT) (w : wobs) (e : env) (cmd : command) (um :
   let st := snd r in
   MkStep e cmd um (rclass_of (fst r)) (rev (s_log st)) (MkDelta (map fst (wo_fs w)) (w_fs (s_w st)))
          (ks_tab (w_ks (s_w st))) (ks_nextid (w_ks (s_w st))) (ks_nextdev (w_ks (s_w st)))
-         (match fst r with Ret (Some ld) => Some (map lobs_of (ld_map ld)) | _ => None end).
+         (match fst r with Ret (Some ld) => Some (map lobs_of (ld_map ld)) | _ => None end) [].
 Definition case_of (cfg : cfgT) (w : wobs) (e : env) (cmd : command) : LC.case :=
   MkCase cfg (wo_fs w) (wo_ks w) [step_of_model cfg w e cmd []].
 Definition hyps_of (c : LC.case) : bool := along (step_hyps (c_cfg c)) (w0 c) (c_steps c).
